@@ -102,20 +102,25 @@ XalanOutputStream::write(
 
     if (theBufferLength + m_buffer.size() > m_bufferSize)
     {
-        flushBuffer();
+        flushBufferKeepingSplitPair();
     }
 
-    if (theBufferLength > m_bufferSize)
+    if (theBufferLength > m_bufferSize && m_buffer.empty() == true)
     {
-        assert(m_buffer.empty() == true);
-
         doWrite(theBuffer, theBufferLength);
     }
     else
     {
+        // If the first half of a surrogate pair was kept back, the
+        // buffer may grow beyond its nominal size here...
         m_buffer.insert(m_buffer.end(),
                         theBuffer,
                         theBuffer + theBufferLength);
+
+        if (m_buffer.size() > m_bufferSize)
+        {
+            flushBufferKeepingSplitPair();
+        }
     }
 }
 
@@ -196,6 +201,20 @@ XalanOutputStream::transcode(
                             theExceptionBuffer,
                             0);
                 }
+            }
+
+            if (theSourceBytesEaten == 0 &&
+                theTargetBytesEaten == 0 &&
+                theTargetSize >= 16)
+            {
+                // The transcoder cannot make any progress, although
+                // there is room for any character (for example,
+                // the input ends with half of a surrogate pair).
+                XalanDOMString  theExceptionBuffer(theDestination.getMemoryManager());
+
+                throw TranscodingException(
+                        theExceptionBuffer,
+                        0);
             }
 
             theTotalBytesFilled += theTargetBytesEaten;
@@ -326,6 +345,29 @@ XalanOutputStream::flushBuffer()
     }
 
     assert(m_buffer.empty() == true);
+}
+
+
+
+void
+XalanOutputStream::flushBufferKeepingSplitPair()
+{
+    if (m_buffer.size() > 1 &&
+        0xD800u <= m_buffer.back() &&
+        m_buffer.back() < 0xDC00u)
+    {
+        const XalanDOMChar  theHighSurrogate = m_buffer.back();
+
+        m_buffer.pop_back();
+
+        flushBuffer();
+
+        m_buffer.push_back(theHighSurrogate);
+    }
+    else
+    {
+        flushBuffer();
+    }
 }
 
 
